@@ -66,6 +66,7 @@ type Program struct {
 	Tolerant    []TolerantUse // uses of the unbound identifier zz
 	Failing     string        // non-empty: a generated statement that fails on its own (kind)
 	FailLine    int
+	FailMarker  *Site  // nested natural failure: a probe evaluated in the same tag just before the failing operation (tells whether it ran)
 	Broken      string // non-empty: the program contains this syntactically broken tag
 	BrokenLine  int    // ... which begins on this line of the main template
 }
@@ -113,6 +114,7 @@ type genOpts struct {
 	tolerant    bool  // emit uses of the unbound identifier zz
 	failing     bool  // may emit one naturally failing statement
 	failPct     int   // ... with this probability (default 100)
+	failNested  bool  // instead: one failing operation somewhere nested, guarded by a marker probe
 	brokenPct   int   // probability (percent) of one syntactically broken tag at top level (the program then fails to parse)
 	brokenKinds []int // restrict broken tags to these catalogue entries (swarm)
 	noise       bool  // multi-line strings / comments between tags (C15)
@@ -640,6 +642,10 @@ func (g *gen) outTag() string {
 
 func (g *gen) piece(depth int) {
 	g.text()
+	if g.o.failNested && g.p.Failing == "" && (g.nest > 0 || g.cur.name != "") && g.pct("failnested", 25) {
+		g.failingPiece()
+		return
+	}
 	choice := g.intn("piece", 0, 23)
 	if depth <= 0 && choice >= 6 && choice <= 17 {
 		choice = choice % 6
@@ -1290,10 +1296,45 @@ func (g *gen) failingPiece() {
 		{"unknown-operator", `true - false`},
 		{"missing-contentOf", `contentOf("absent")`},
 	}
+	kinds = append(kinds, []struct{ kind, body string }{
+		{"index-assign-out-of-range", ""}, // two tags, see below
+		{"iterate-non-iterable", ""},
+		{"toJSON-of-func", "toJSON(pv)"},
+		{"missing-field", "obj.Nofield"},
+		{"regex-does-not-compile", `s1 ~= "(["`},
+	}...)
 	k := kinds[g.intn("failkind", 0, len(kinds)-1)]
 	g.p.Failing = k.kind
-	g.p.FailLine = g.cur.line
-	g.tag("<%=", k.body, "%>")
+	if g.nest > 0 || g.cur.name != "" {
+		// nested (in a body or a partial): guard with a marker probe that is
+		// evaluated, in the same tag, right before the failing operation
+		if k.body == "" {
+			k = kinds[1]
+			g.p.Failing = k.kind
+		}
+		g.frames = 0
+		m := g.newSite(pkValue, "natural-failure-marker", kAny)
+		g.p.FailMarker = m
+		g.tag("<%=", fmt.Sprintf("[pv(%d, 0), %s]", m.ID, k.body), "%>")
+		g.nl()
+		return
+	}
+	switch k.kind {
+	case "index-assign-out-of-range":
+		a := g.fresh("arr")
+		g.tag("<%", "let "+a+" = [1, 2]", "%>")
+		g.nl()
+		g.p.FailLine = g.cur.line
+		g.tag("<%", a+"[5] = 1", "%>")
+	case "iterate-non-iterable":
+		g.p.FailLine = g.cur.line
+		g.tag("<%=", "for (x) in n1 {", "%>")
+		g.cur.write("x")
+		g.tag("<%", "}", "%>")
+	default:
+		g.p.FailLine = g.cur.line
+		g.tag("<%=", k.body, "%>")
+	}
 	g.nl()
 }
 
